@@ -35,23 +35,23 @@ Proof. exact list_line_has_type. Qed.
 Print Assumptions C19_list_line_typed.
 
 (* Every other parser returns a value or an ordinary exception from a stated finite set:
-     parse_unix_mode {KeyError, IndexError, ValueError}; parse_mlsx_line {UnicodeDecodeError};
-     parse_pasv_response, parse_epsv_response {ValueError, IndexError}; Client.stat's MLST half
-     {IndexError}; the unix / windows line parsers {funnel}; parse_directory_response is a total
+     parse_unix_mode {KeyError, IndexError, ValueError}; parse_mlsx_line {ValueError (no
+     pathname), UnicodeDecodeError}; parse_pasv_response, parse_epsv_response {ValueError,
+     IndexError}; Client.stat's MLST half {IndexError, ValueError}; the unix / windows line parsers {funnel}; parse_directory_response is a total
      function to a path (no exception at all: its type says so).  All of them are total Gallina
      functions by structural recursion on the input (no fuel): the Python loops they stand for
      are `for ch in s`, re.finditer / findall over a finite string, and str methods. *)
 Theorem C19_parsers_ordinary :
   (forall s, allowed mode_set (parse_unix_mode s))
-  /\ (forall dec b, allowed decode_set (parse_mlsx_line dec b))
+  /\ (forall dec b, allowed value_error (parse_mlsx_line dec b))
   /\ (forall s, allowed passive_set (parse_pasv_response s))
   /\ (forall s, allowed passive_set (parse_epsv_response s))
-  /\ (forall info, allowed index_set (stat_mlst info))
+  /\ (forall info, allowed passive_set (stat_mlst info))
   /\ (forall dec ls_date b, (forall s, allowed funnel (ls_date s)) ->
                             allowed funnel (parse_list_line_unix dec ls_date b))
   /\ (forall dec win_date b, (forall s, allowed funnel (win_date s)) ->
                              allowed funnel (parse_list_line_windows dec win_date b))
-  /\ (forall e, (mode_set e || decode_set e || passive_set e || index_set e || funnel e
+  /\ (forall e, (mode_set e || value_error e || passive_set e || funnel e
                  || reply_set e) = true -> ordinary e = true).
 Proof. exact parsers_ordinary. Qed.
 Print Assumptions C19_parsers_ordinary.
@@ -108,68 +108,59 @@ Theorem C19_dots_never_yielded_nor_queued :
 Proof. exact dots_never_yielded_nor_queued. Qed.
 Print Assumptions C19_dots_never_yielded_nor_queued.
 
-(* How Client.list can end: normally; with ValueError (or its subclass UnicodeDecodeError) from a
-   line; with the server's refusal (StatusCodeError); or -- the defect below -- with KeyError. *)
-Theorem C19_lister_classes :
+(* FULL ("for listing lines always the documented ValueError"): in MLSD and LIST mode alike
+   Client.list ends normally; with ValueError (or its subclass UnicodeDecodeError) from a line
+   -- including a line without a type fact --; or with the server's refusal (StatusCodeError).
+   Never KeyError (F12b, repaired), never anything else. *)
+Theorem C19_listing_value_error :
   forall dec ls_date win_date limit,
   (forall s, allowed funnel (ls_date s)) -> (forall s, allowed funnel (win_date s)) ->
   forall rec path (sc : script (list Z)),
     lend_ok value_error
       (ending (run_lister (list Z) (parse_data_line dec ls_date win_date limit) rec path sc)).
 Proof. exact lister_classes_data_line. Qed.
-Print Assumptions C19_lister_classes.
+Print Assumptions C19_listing_value_error.
 
-(* FULL STATEMENT (properties.jsonl: "for listing lines always the documented ValueError ...
-   reports a line it cannot parse instead of dropping it"):
-     unparseable_reported: for every script, Client.list either yields every line that is not
-     an explicit '.' / '..' entry, or raises ValueError.
-   It FAILS on today's code (known findings F12a, F12b, F12c), faithfully modelled: *)
-Theorem C19_unparseable_reported_refuted :
-  exists b : list Z,
-    existsb (Z.eqb SP) b = false
-    /\ run_lister oline (parse_oline utf8 65536) false root_path [(false, [mlsd_line b])]
-       = {| yields := []; requests := [root_path]; ending := LDone |}.
-Proof. exact unparseable_reported_refuted. Qed.
-Print Assumptions C19_unparseable_reported_refuted.
+(* FULL ("reports a line it cannot parse instead of dropping it"; F12a/F12c repaired).
+   A listing that completes has parsed EVERY line to a non-empty raw name (the path is
+   PurePosixPath(raw)) and a type fact, and the lines it did not yield are exactly those whose
+   non-empty name is '.' or '..' after normalisation (explicit dot entries).  Hence a line
+   without a name column / pathname, without a type fact, over-long, undecodable, or on which a
+   parser raises is never in a completed listing: Client.list ends with the exception
+   (C19_listing_value_error: of class ValueError). *)
+Theorem C19_unparseable_reported :
+  forall dec ls_date win_date limit rec path m (lines : list (list Z)),
+    let parse := parse_data_line dec ls_date win_date limit in
+    let r := run_lister (list Z) parse rec path [(m, lines)] in
+    ending r = LDone ->
+    (length (yields r) + length (filter (explicit_dot dec ls_date win_date limit m) lines) = length lines)%nat
+    /\ Forall (fun b => exists name info raw t,
+                  parse m b = Ok (name, info) /\ raw <> [] /\ name = posix_norm raw
+                  /\ dict_get k_type info = Some t) lines.
+Proof. exact unparseable_reported. Qed.
+Print Assumptions C19_unparseable_reported.
 
-Theorem C19_listing_value_error_refuted :
-  exists b : list Z,
-    ending (run_lister oline (parse_oline utf8 65536) false root_path [(false, [mlsd_line b])])
-    = LRaised KeyError.
-Proof. exact listing_value_error_refuted. Qed.
-Print Assumptions C19_listing_value_error_refuted.
-
-Theorem C19_list_nameless_dropped_refuted :
-  exists (b : list Z) (date : text),
-    run_lister oline (parse_oline utf8 65536) false root_path
-               [(true, [(b, Ok date, Exc ValueError)])]
-    = {| yields := []; requests := [root_path]; ending := LDone |}.
-Proof. exact list_nameless_dropped_refuted. Qed.
-Print Assumptions C19_list_nameless_dropped_refuted.
-
-(* What IS true (carved): a listing that completes has parsed every line, and the lines it did
-   not yield are exactly those whose PARSED name is '.' or '..' -- a line on which the line
-   parser raises is never dropped.  (Missing: a line without a name column / pathname parses to
-   the name '.', F12a/F12c.) *)
-Theorem C19_unparseable_reported_partial :
+(* the same accounting for an arbitrary line parser (what the lister itself guarantees) *)
+Theorem C19_completed_listing_accounts :
   forall (L : Type) (parse : bool -> L -> result (text * dict)) rec path m (lines : list L),
     let r := run_lister L parse rec path [(m, lines)] in
     ending r = LDone ->
     (length (yields r) + length (filter (dropped L parse m) lines) = length lines)%nat
     /\ Forall (fun l => exists v, parse m l = Ok v) lines.
 Proof. exact completed_listing_accounts. Qed.
-Print Assumptions C19_unparseable_reported_partial.
+Print Assumptions C19_completed_listing_accounts.
 
-(* ... and when every directory is listed with LIST (parse_list_line), the only exceptions are
-   ValueError / the server's refusal: no KeyError (missing for MLSD: F12b) *)
-Theorem C19_listing_value_error_partial :
-  forall dec ls_date win_date limit,
-  (forall s, allowed funnel (ls_date s)) -> (forall s, allowed funnel (win_date s)) ->
-  forall rec path (sc : script (list Z)),
-    lend_ok_typed value_error
-      (ending (run_lister (list Z) (fun _ => parse_data_line dec ls_date win_date limit true) rec path sc)).
-Proof. exact listing_value_error_partial. Qed.
-Print Assumptions C19_listing_value_error_partial.
+(* the witnesses of the former findings F12a / F12b / F12c now end the listing with ValueError
+   (corpus cases of the harness; on the unrepaired source they were dropped / raised KeyError) *)
+Example C19_former_witnesses_reported :
+  ending (run_lister oline (parse_oline utf8 65536) false root_path
+            [(false, [mlsd_line [103; 97; 114; 98; 97; 103; 101; 13; 10]])]) = LRaised ValueError
+  /\ ending (run_lister oline (parse_oline utf8 65536) false root_path
+            [(false, [mlsd_line [115; 105; 122; 101; 61; 49; 59; 32; 110; 111; 116; 121; 112; 101; 13; 10]])])
+     = LRaised ValueError.
+Proof.
+  split; [rewrite nameless_mlsd_line_reported; reflexivity|exact typeless_mlsd_line_reported].
+Qed.
 
 (* Server side.  For every except-ladder that passes the closed check `ladder_contains` (every
    class parse_command can raise -- ValueError of the line limit, UnicodeDecodeError,
@@ -269,11 +260,11 @@ Theorem C19_pasv_exact :
 Proof. exact pasv_exact. Qed.
 Print Assumptions C19_pasv_exact.
 
-(* 257: text "path with doubled quotes" text: exactly the path, for every path in which a
-   double quote is followed by a character other than a double quote (dq_ok) *)
+(* 257: text "path with doubled quotes" text: exactly the path, for EVERY path (also one that
+   ends in a double quote or has several in a row: the F08 repair of the quote counter) *)
 Theorem C19_directory_exact :
   forall pre d post,
-    no 34 pre -> dq_ok d -> (forall r, post <> 34 :: r) ->
+    no 34 pre -> (forall r, post <> 34 :: r) ->
     parse_directory_response (pre ++ 34 :: dq_escape d ++ 34 :: post) = posix_norm d.
 Proof. exact directory_exact. Qed.
 Print Assumptions C19_directory_exact.
@@ -372,6 +363,16 @@ Theorem C19_parser_structure_obligation :
     Gen.ParserFacts.lister_recursion_test = true.
 Proof. vm_compute. reflexivity. Qed.
 Print Assumptions C19_parser_structure_obligation.
+
+(* the guards of the F12 repair are in the source (and S/T in parse_unix_mode, part of the check
+   above): computes false on the unrepaired shapes (Proofs/ParserFacts.v, the Examples named unrepaired_...), so a
+   revert of the repair is detected structurally as well as by the corpus *)
+Theorem C19_repair_guards_obligation :
+  repair_guards_check Gen.ParserFacts.unix_name_guard Gen.ParserFacts.windows_name_guard
+    Gen.ParserFacts.mlsx_partition_targets Gen.ParserFacts.mlsx_name_guard
+    Gen.ParserFacts.lister_type_guard = true.
+Proof. vm_compute. reflexivity. Qed.
+Print Assumptions C19_repair_guards_obligation.
 
 (* hence the model's funnel is the except tuple the source has today, class by class (under the
    CPython class hierarchy written in Proofs/ParserFacts.v: instance_of) *)
